@@ -92,6 +92,9 @@ pub fn check(shape: &Shape, value: &Value, tail: &[u8], full: bool, l: &mut Loca
 }
 
 pub fn replay(case: &Json, l: &mut Local) -> CaseResult {
+    if case.get("probe").is_some() {
+        return check_human_readable_flag(l);
+    }
     if let Some(r) = super::corpus_checks::replay_corpus(case, l) {
         return r;
     }
@@ -138,6 +141,7 @@ pub fn run(ctx: &Ctx) {
          (with 3 different tails) by from_bytes/take_from_bytes/from_io/from_eio. non-trivial = composite shape \
          or encoding >= 2 bytes; distinct = hash(shape, bytes) (enumerated scalars are distinct by construction)",
     );
+    ctx.serial("human-readable-flag", check_human_readable_flag);
     ctx.assume("value equality is structural on the harness Value (floats by bit pattern)");
     ctx.assume("serde adapters in harness/src/dynshape.rs are trusted (self-checked against the reference encoder)");
 
